@@ -8,8 +8,8 @@ from props import mmulti
 from common import xr, xvec, from_xr, from_xvec, num_close
 
 ID = "C06"
-TARGETS = ["Proofs.C06", "Proofs.GenEq.Cont"]
-GEN_PREFIXES = ["cont."]
+TARGETS = ["Proofs.C06", "Proofs.GenEq.Cont", "Proofs.GenEq.Abcd"]
+GEN_PREFIXES = ["cont.", "abcd."]
 NAMES = ["a", "b", "c", "d", "n", "ets", "fcstrate", "dscore", "threat", "pc", "edi", "sedi", "eds", "seds",
          "biasfreq", "hss", "baserate", "or", "lor", "yulesq", "kss", "hit", "miss", "fa", "far"]
 THEOREMS = {
@@ -17,6 +17,7 @@ THEOREMS = {
         "C06_counts", "C06_total_pos", "C06_missing_not_counted", "C06_swap", "C06_complement",
         "C06_formula", "C06_never_inf", "C06_perfect", "C06_declared_perfect"]],
     "Proofs.GenEq.Cont": ["VerifModel.GenEq.Cont.%s_eq" % n for n in NAMES],
+    "Proofs.GenEq.Abcd": ["VerifModel.GenEq.Abcd." + t for t in ["sum_zipWith", "abcd_eq", "abcd_default_eq"]],
 }
 TRUSTED_BASE = [
     "Lean 4.33 kernel; axioms propext, Classical.choice, Quot.sound only",
@@ -46,6 +47,19 @@ LEVEL_TEXT = ("Lean theorems: the four counts are the numbers of valid pairs in 
               "textbook definition for every table of naturals with >= 1 case and is NaN exactly where the definition "
               "is undefined (never +-inf); a perfect table attains the documented perfect value wherever defined.")
 TECHNIQUE = "Lean 4 proof; formulas regenerated from source by a translator and re-proved each run; exhaustive differential correspondence"
+
+
+# ---- translator extension (harness/translate_more.py gen_abcd): _compute_abcd itself is now regenerated from /repo
+TRUSTED_BASE = TRUSTED_BASE + [
+    "harness/translate_more.py gen_abcd for Contingency._compute_abcd (masked boolean array expressions read per (obs, "
+    "fcst) pair, np.ma.sum as MA.sum of Base/Masked.lean; the `_usingQuantiles` branch is folded away because the class "
+    "attribute is False and assigned nowhere else) - validated each run by stream cont.genabcd, which executes "
+    "Gen.Abcd.abcd against the real method with equal and with different observation / forecast intervals; "
+    "GenEq.Abcd.abcd_eq / abcd_default_eq: generated = the counting model `abcd` the C06 theorems are about"]
+RULE += ("; cont.genabcd: the same vectors through the machine-translated _compute_abcd, forecast interval defaulted or "
+         "drawn independently of the observation interval (b and c distinguishable)")
+LEVEL_TEXT += (" _compute_abcd is machine-translated from /repo on every run as well (Gen/Abcd.lean) and proved equal to the "
+               "counting model for all vectors and intervals (abcd_eq, abcd_default_eq).")
 
 
 def tables(total_max):
@@ -90,6 +104,15 @@ def gen_ops(tier, rng):
         for name in rng.sample(NAMES, 6):
             yield "cont.pairs", "contscore %s %s %s %s %s %s" % (name, b, xr(t), xr(u), xvec(obs), xvec(fcst))
         yield "cont.abcd", "abcd %s %s %s %s %s" % (b, xr(t), xr(u), xvec(obs), xvec(fcst))
+        # the machine translation of _compute_abcd (Gen/Abcd.lean) executed against the real method, with the forecast
+        # interval defaulted (-) or different from the observation interval (so that b and c are distinguishable)
+        if rng3.random() < 0.4:
+            fb, ft, fu = "-", t, u
+        else:
+            fb = rng3.choice(BINS)
+            ft = rng3.choice([t, t, -1.0, 0.0, 0.5, 1.0, 1.25, 2.0, 3.0])
+            fu = ft + rng3.choice([0.0, 0.5, 1.0, 2.0])
+        yield "cont.genabcd", "genabcd %s %s %s %s %s %s %s %s" % (b, xr(t), xr(u), fb, xr(ft), xr(fu), xvec(obs), xvec(fcst))
     # several scores one after the other on ONE Data object, the events differing in the bin type only (same thresholds,
     # values exactly on them): a table computed for `above` must not be handed out for `above=`
     for _ in range(120 if tier == "quick" else 2500):
@@ -160,12 +183,18 @@ def impl(op):
                 except Exception as e:       # noqa: a crash of one score must not hide the others
                     out.append("EXC:%s" % type(e).__name__)
             return " ".join(out)
-        if a[0] == "abcd":
+        if a[0] in ("abcd", "genabcd"):
             m = verif.metric.get("ets")
             iv = _interval(a[1], from_xr(a[2]), from_xr(a[3]))
-            o_, f_ = np.array(from_xvec(a[4]), float), np.array(from_xvec(a[5]), float)
-            guard = common.Unchanged(o_, f_)
-            r = m._compute_abcd(o_, f_, iv)
+            if a[0] == "genabcd":
+                fiv = None if a[4] == "-" else _interval(a[4], from_xr(a[5]), from_xr(a[6]))
+                o_, f_ = np.array(from_xvec(a[7]), float), np.array(from_xvec(a[8]), float)
+                guard = common.Unchanged(o_, f_)
+                r = m._compute_abcd(o_, f_, iv, fiv)
+            else:
+                o_, f_ = np.array(from_xvec(a[4]), float), np.array(from_xvec(a[5]), float)
+                guard = common.Unchanged(o_, f_)
+                r = m._compute_abcd(o_, f_, iv)
             if any(np.ma.is_masked(x) or (isinstance(x, float) and math.isnan(x)) for x in r):
                 return guard.tag("none")
             return guard.tag(" ".join(str(int(x)) for x in r))
@@ -177,13 +206,14 @@ def _doc_event(b, t, u, x):
             "=within": t <= x < u, "within=": t < x <= u, "=within=": t <= x <= u}[b]
 
 
-def _doc_table(b, t, u, obs, fcst):
-    """documented counting, written independently of verif"""
+def _doc_table(b, t, u, obs, fcst, fevent=None):
+    """documented counting, written independently of verif (fevent: the forecasts' own event, if it differs)"""
     a = bb = c = d = 0
+    fb_, ft_, fu_ = fevent or (b, t, u)
     for o, f in zip(obs, fcst):
         if math.isnan(o) or math.isnan(f):
             continue
-        eo, ef = _doc_event(b, t, u, o), _doc_event(b, t, u, f)
+        eo, ef = _doc_event(b, t, u, o), _doc_event(fb_, ft_, fu_, f)
         if ef and eo:
             a += 1
         elif ef:
@@ -226,7 +256,7 @@ def _seq_items(op):
 
 
 def cmp(op, impl_out, model_out):
-    if op.startswith("abcd") or op.startswith("contperfect"):
+    if op.startswith("abcd") or op.startswith("contperfect") or op.startswith("genabcd"):
         return impl_out == model_out
     if op.startswith("contseq"):
         items, it, mt = _seq_items(op), impl_out.split(" "), model_out.split(" ")
@@ -269,6 +299,13 @@ def judge(op, impl_out, spec_out):
         want = "none" if sum(t) == 0 else "%d %d %d %d" % t
         if impl_out != want:
             return ({"kind": "counts"}, "table %s, documented counting gives %s" % (impl_out, want))
+    if a[0] == "genabcd":
+        fev = None if a[4] == "-" else (a[4], from_xr(a[5]), from_xr(a[6]))
+        t = _doc_table(a[1], from_xr(a[2]), from_xr(a[3]), from_xvec(a[7]), from_xvec(a[8]), fev)
+        want = "none" if sum(t) == 0 else "%d %d %d %d" % t
+        if impl_out != want:
+            return ({"kind": "counts"}, "table %s, documented counting (forecast event %s) gives %s"
+                    % (impl_out, "as for obs" if fev is None else " ".join(a[4:7]), want))
     return None
 
 
